@@ -371,6 +371,9 @@ impl<'a> CodeGenerator<'a> {
     fn finalize(&mut self, mut term: Term<Name>) -> Program<Name> {
         term = self.special_functions.apply_used_functions(term);
 
+        #[cfg(feature = "verif-hooks")]
+        verif_hooks::PRE_OPTIMIZE.with(|sink| sink.borrow_mut().push(self.new_program(term.clone())));
+
         let program = aiken_optimize_and_intern(self.new_program(term));
 
         // This is very important to call here.
@@ -5462,5 +5465,21 @@ fn handle_assigns(
 
             builtins_to_add.produce_air(prev_subject_name, prev_tipo, assignment)
         }
+    }
+}
+
+/// Verification hook (feature `verif-hooks`, off by default): every program handed to the
+/// optimiser by `CodeGenerator::finalize` is also pushed, unoptimised, into this thread-local sink.
+#[cfg(feature = "verif-hooks")]
+pub mod verif_hooks {
+    use std::cell::RefCell;
+    use uplc::ast::{Name, Program};
+
+    thread_local! {
+        pub static PRE_OPTIMIZE: RefCell<Vec<Program<Name>>> = const { RefCell::new(Vec::new()) };
+    }
+
+    pub fn drain() -> Vec<Program<Name>> {
+        PRE_OPTIMIZE.with(|sink| sink.borrow_mut().drain(..).collect())
     }
 }
